@@ -220,9 +220,21 @@ def real_frameseq(line):
                         f.data[k] = b
                     else:
                         f.data.append(b)
-            out.append(bytes(realenv.in_thread(f.to_bytes)).hex())
+            r = realenv.in_thread(f.to_bytes)
+            out.append(bytes(r).hex())
             if bytes(f.data) != pl:
                 out.append('DATA-CHANGED')
+            # what to_bytes() returns is the caller's: a back end may consume it while writing (`del data[:n]` after a short write),
+            # a caller may patch it - the next serialisation says the same as ever (which lines do this depends on the line)
+            if isinstance(r, bytearray) and zlib.crc32(line.encode()) % 2 == 0:
+                k = zlib.crc32(h.encode()) % 3
+                if k == 0:
+                    del r[:max(1, len(r) // 2)]
+                elif k == 1:
+                    r[0] ^= 0xFF
+                    r.append(0)
+                else:
+                    r.clear()
     except Exception as e:
         out.append('EXC:' + exc_name(e))
     return ' '.join(out)
